@@ -34,6 +34,12 @@ Proof. exact child_schema_total. Qed.
 Theorem C03_tables_well_kinded : forall v, kinds_ok (tab_of v) = true.
 Proof. exact tables_well_kinded. Qed.
 
+(* the hand-modelled validator functions have the AST fingerprints the model was written against *)
+Theorem C03_validator_functions_unchanged :
+  fn_hashes = [(s2p "FGps", s2p "9ecc978b1525c8ed"); (s2p "FHex", s2p "9e4105613a820f9c");
+               (s2p "FRgb", s2p "1d36f795cba6d63d"); (s2p "FRgbw", s2p "f19d72d3d74541eb")].
+Proof. exact validator_functions_unchanged. Qed.
+
 (* non-vacuity: concrete accept / reject decisions of the generated tables *)
 Example C03_example_accept :
   validate (fun _ => true) (fun _ => FErr) tab_22 (mkMsg 1 1 1 0 22 (s2p "Auto")) = true /\
@@ -48,3 +54,4 @@ Print Assumptions C03_subtypes_monotone.
 Print Assumptions C03_every_subtype_has_rule.
 Print Assumptions C03_child_schema_total.
 Print Assumptions C03_tables_well_kinded.
+Print Assumptions C03_validator_functions_unchanged.
